@@ -275,7 +275,7 @@ pub mod framing {
         };
         let chunked = resp_http11
             && te
-                .map(|v| v.split(',').any(|c| c.trim().eq_ignore_ascii_case("chunked")))
+                .map(|v| v.split(',').any(|c| c.trim_matches(|ch| ch == ' ' || ch == '\t').eq_ignore_ascii_case("chunked")))
                 .unwrap_or(false);
         if method == "HEAD"
             || (method == "CONNECT" && (200..300).contains(&status))
